@@ -96,7 +96,48 @@ def plumbing(chk):
            "bounded", detail=str(bad))
 
 
+def line_endings(chk):
+    """The line a raising form is reported on is its physical line whatever the file's line-ending convention: the same
+    program with LF and with CRLF line ends yields the same traceback lines (the importer hands the decoded text to the
+    reader without newline translation), and each of them lies inside the raising form's span."""
+    import traceback
+    import types
+    import hy
+    base = ('(setv a 1)\n'
+            '(defn f [x]\n'
+            '  (setv y\n'
+            '    (/ x 0))\n'
+            '  y)\n'
+            '\n'
+            '(defn g []\n'
+            '  (lfor i [1]\n'
+            '    :do (setv q i)\n'
+            '    (f i)))\n'
+            '(setv r\n'
+            '  [1\n'
+            '   (g)])\n')
+    want = {"<module>": (11, 13), "g": (8, 10), "f": (3, 4)}
+    seen = {}
+    for name, nl in (("LF", "\n"), ("CRLF", "\r\n")):
+        text = base.replace("\n", nl)
+        mod = types.ModuleType("hv_c17_" + name)
+        try:
+            tree = hy.compiler.hy_compile(hy.read_many(text, filename="<c17>"), mod, filename="<c17>", source=text)
+            exec(compile(tree, "<c17>", "exec"), mod.__dict__)
+            seen[name] = "no exception"
+        except ZeroDivisionError as e:
+            seen[name] = {fr.name if not fr.name.startswith("_hy_anon") else "lifted": fr.lineno for fr in traceback.extract_tb(e.__traceback__) if fr.filename == "<c17>"}
+        except Exception as e:  # noqa: BLE001
+            seen[name] = f"{type(e).__name__}: {e}"
+    for name in ("LF", "CRLF"):
+        got = seen[name]
+        ok = isinstance(got, dict) and all(k in got and lo <= got[k] <= hi for k, (lo, hi) in want.items())
+        chk.ob(f"line-endings/{name} source: every traceback frame points into the raising form", ok, "cpython-oracle", "bounded",
+               detail=f"frames {got}, spans {want}", replay={"confirmed": not ok, "input": f"the 13-line program of hv/props/c17.py::line_endings with {name} line ends", "observed": str(got), "expected": str(want)})
+
+
 def run(chk):
+    line_endings(chk)
     names = [n for n, e in catalog.ENTRIES.items() if catalog.supported(e)]
     chk.fn(*sorted({e.fn for e in catalog.ENTRIES.values() if e.fn}), "hy/compiler.py::Asty._get_pos/__getattr__/parse",
            "hy/models.py::Object.replace, Sequence.replace", "hy/reader/hy_reader.py::HyReader.fill_pos")
